@@ -513,6 +513,32 @@ def _next(ex, it, *default):
 
 def _next_lazy(ex, it, *default):
     # next(generator expression): evaluate lazily so that later elements are not touched
+    if isinstance(it, GenExp) and len(it.node.generators) == 1 and not it.node.generators[0].is_async:
+        # next(elt for x in <sequence of symbolic length> if cond): the element at the LEAST matching position, else
+        # StopIteration / the default (well-ordering of the naturals; both cases are assumed, not searched)
+        g0 = it.node.generators[0]
+        seq0 = ex.eval(g0.iter, it.env, it.cls)
+        if isinstance(seq0, SymSeq):
+            def pred(jt):
+                env2 = dict(it.env)
+                ex.assign(g0.target, seq0.at(jt), env2, it.cls)
+                ts = []
+                for c in g0.ifs:
+                    v = ex.pure_bool(c, env2, it.cls)
+                    ts.append(v.t if isinstance(v, SBool) else z3.BoolVal(bool(v)))
+                return z3.And(ts) if ts else z3.BoolVal(True)
+
+            r, j = z3.FreshInt("first"), z3.FreshInt("fj")
+            if ex.choice():
+                ex.assume(z3.And(0 <= r, r < seq0.length, pred(r)))
+                ex.assume(z3.ForAll([j], z3.Implies(z3.And(0 <= j, j < r), z3.Not(pred(j)))))
+                env2 = dict(it.env)
+                ex.assign(g0.target, seq0.at(r), env2, it.cls)
+                return ex.eval(it.node.elt, env2, it.cls)
+            ex.assume(z3.ForAll([j], z3.Implies(z3.And(0 <= j, j < seq0.length), z3.Not(pred(j)))))
+            if default:
+                return default[0]
+            raise PyRaise("StopIteration")
     if isinstance(it, GenExp):
         e, env, cls = it.node, it.env, it.cls
 
